@@ -306,6 +306,32 @@ def _from_method_return(P, G, f, name):
     return None
 
 
+def _local_dict_build(f, v):
+    """a dictionary built into a local and then stored whole:  d = OrderedDict(); for k, a in sorted(src.items()): d[k] = g(a);
+    self.attr = d   ->  (loop iterables, item values) or None"""
+    if not isinstance(v, ast.Name):
+        return None
+    inits = [a for a in ast.walk(f.node) if isinstance(a, ast.Assign) and len(a.targets) == 1 and U(a.targets[0]) == v.id]
+    if len(inits) != 1:
+        return None
+    iv = inits[0].value
+    empty = (isinstance(iv, ast.Dict) and not iv.keys) or (isinstance(iv, ast.Call) and not iv.args and not iv.keywords and
+                                                         U(iv.func).split('.')[-1] in ('dict', 'OrderedDict'))
+    if not empty:
+        return None
+    iters, vals = [], []
+    for a in ast.walk(f.node):
+        if isinstance(a, ast.Assign) and isinstance(a.targets[0], ast.Subscript) and U(a.targets[0].value) == v.id:
+            q = parent(a)
+            while q is not None and q is not f.node and not isinstance(q, ast.For):
+                q = parent(q)
+            if not isinstance(q, ast.For):
+                return None
+            iters.append(q.iter)
+            vals.append(a.value)
+    return (iters, vals) if vals else None
+
+
 def check_caller_dict(ctx, caller, expr, edge):
     """the dictionary handed to HeaderwordInfo(variant_header_dict=...) holds int32 arrays: its last construction in the
     owning class casts every value."""
@@ -327,6 +353,11 @@ def check_caller_dict(ctx, caller, expr, edge):
         return
     f, st, v = max(whole, key=lambda x: x[1].lineno)
     cast = False
+    built = _local_dict_build(f, v)
+    if built is not None:
+        # every value stored into the local dictionary is cast
+        cast = all(any(isinstance(n, ast.Call) and isinstance(n.func, ast.Attribute) and n.func.attr == 'astype' and n.args and
+                       U(n.args[0]) in INT32 for n in ast.walk(x)) for x in built[1])
     for n in ast.walk(v):
         if isinstance(n, ast.Call) and isinstance(n.func, ast.Attribute) and n.func.attr == 'astype' and n.args and \
                 U(n.args[0]) in INT32:
@@ -492,6 +523,10 @@ def check_caller_order(ctx, caller, expr, edge):
         return
     f, st, v = max(whole, key=lambda x: x[1].lineno)
     is_sorted = 'OrderedDict' in U(v) and 'sorted(' in U(v)
+    built = _local_dict_build(f, v)
+    if built is not None:
+        # filled in the order of a loop over sorted(<items>)
+        is_sorted = all(isinstance(it, ast.Call) and U(it.func) == 'sorted' for it in built[0])
     late = [(m, n) for (m, n) in items if (m is f and n.lineno > st.lineno) or (m is not f and m.name != '__init__')]
     if is_sorted and not late:
         ctx.ok('C04.2', f, st, 'self.%s is rebuilt sorted by header word after the last insertion' % attr)
